@@ -36,6 +36,7 @@ type world struct {
 	wcap     int                      // pressure histories: the static size of the outbound buffers (0 = production)
 	held     map[*stepper.Peer][]byte // second halves of split replies not yet delivered
 	choices  bool                     // replica reads enabled: record which node each queued fragment was routed to
+	dead     bool                     // the loop returned ErrEngineShutdown: the process would have ended here
 }
 
 type worldCfg struct {
@@ -188,6 +189,9 @@ func (w *world) observe() sx.V {
 }
 
 func (w *world) record(ev sx.V) {
+	if w.dead {
+		return
+	}
 	w.events = append(w.events, ev)
 	w.obs = append(w.obs, w.observe())
 }
@@ -378,7 +382,17 @@ func (w *world) backendData(p *stepper.Peer, b []byte) {
 		return
 	}
 	a, k := w.backendName(p)
-	w.s.Send(p, b)
+	if w.dead {
+		return
+	}
+	if err := w.s.Send(p, b); err != nil && strings.Contains(err.Error(), "shutdown") {
+		// Polling would return this error and the process would end: the history ends here
+		w.events = append(w.events, sx.L(sx.I(3), sx.S(a), sx.I(k), sx.B(b)))
+		w.obs = append(w.obs, sx.L(sx.S("shutdown")))
+		w.dead = true
+		w.tagset["proxy-shut-down"] = true
+		return
+	}
 	w.record(sx.L(sx.I(3), sx.S(a), sx.I(k), sx.B(b)))
 }
 
@@ -424,6 +438,10 @@ func (w *world) replyFor(node string, a [][]byte) []byte {
 		return []byte("$0\r\n\r\n")
 	case cmd == "asking":
 		return []byte("+OK\r\n")
+	case len(a) > 1 && anyKeyContains(a[1:], "noauth"):
+		// what a script can make a node say (redis.error_reply), or a node that wants a password the
+		// proxy was not given: an error like any other for the client that asked
+		return []byte("-NOAUTH Authentication required.\r\n")
 	case strings.Contains(key, "err"):
 		return []byte("-ERR bad " + strings.ReplaceAll(key, "\r\n", "") + "\r\n")
 	case cmd == "mget" && anyKeyContains(a[1:], "err"):
@@ -542,7 +560,7 @@ func (w *world) nextRequest(r *rng.R, c int) []byte {
 		}
 		return out
 	}
-	kind := r.Intn(27)
+	kind := r.Intn(28)
 	if w.cfg.single {
 		// two connections per node: which connection a fragment of a split request takes depends on Go
 		// map iteration order, so these layouts keep to single-key requests
@@ -552,6 +570,12 @@ func (w *world) nextRequest(r *rng.R, c int) []byte {
 		}
 	}
 	switch kind {
+	case 27: // a request whose answer is an authentication error of the node (a script can produce one at will)
+		w.tagset["backend-auth-error"] = true
+		if r.Chance(50) {
+			return bulk([]byte(r.Pick("EVAL", "eval")), []byte("return redis.error_reply('NOAUTH Authentication required.')"), []byte("1"), key("noauth"))
+		}
+		return bulk([]byte("get"), key("noauth"))
 	case 24: // AUTH from a client: right password, wrong password, or no password configured
 		w.tagset["local-reply"] = true
 		w.tagset["auth"] = true
